@@ -127,8 +127,19 @@ def _rest(ctx, repo, cg):
     # inside its critical section and that store into the registry.  role = what they register
     withs0 = [w for w in walk_shallow(hp) if isinstance(w, ast.With) and any(_is_lock(i.context_expr) for i in w.items)]
     ctx.require(len(withs0) == 1, 'hook_packages: expected one critical section')
+    # the critical section: the body of the `with <lock>` statement — or, when that body merely delegates to a private
+    # helper of the module (an extracted "…_locked" function), the body of that helper
+    crit_fn, crit_body = hp, withs0[0].body
+    for _ in range(3):
+        only = crit_body[0] if len(crit_body) == 1 else None
+        call = only.value if isinstance(only, (ast.Expr, ast.Return)) and isinstance(getattr(only, 'value', None), ast.Call) else None
+        tgt = pm.defs.get(call.func.id) if call is not None and isinstance(call.func, ast.Name) else None
+        if not isinstance(tgt, ast.FunctionDef):
+            break
+        crit_fn = tgt
+        crit_body = [x for x in tgt.body if not (isinstance(x, ast.Expr) and isinstance(x.value, ast.Constant))]
     helpers = []
-    for c in ast.walk(withs0[0]):
+    for c in [x for st_ in crit_body for x in ast.walk(st_)]:
         if isinstance(c, ast.Call) and isinstance(c.func, ast.Name) and isinstance(pm.defs.get(c.func.id), ast.FunctionDef) \
                 and c.func.id not in helpers and stores_in(pm.defs[c.func.id]):
             helpers.append(c.func.id)
@@ -156,17 +167,15 @@ def _rest(ctx, repo, cg):
                    pm.where(r), f'no registry store can precede this raise inside {name}', r not in bad,
                    'a store into the registry (earlier loop iteration) may already have happened when this raises')
     # sibling callees in the critical section
-    seq = [c for c in walk_shallow(hp) if isinstance(c, ast.Call) and dotted(c.func) in summaries and inside_with(c, _is_lock)]
+    seq = [c for st_ in crit_body for c in ast.walk(st_) if isinstance(c, ast.Call) and dotted(c.func) in summaries]
     seq.sort(key=lambda c: c.lineno)
     from sa.flow import enumerate_paths
-    withs = [w for w in walk_shallow(hp) if isinstance(w, ast.With) and any(_is_lock(i.context_expr) for i in w.items)]
-    ctx.require(len(withs) == 1, 'hook_packages: expected one critical section')
 
     def callee_events(node):
         return [dotted(c.func) for c in ([node] if isinstance(node, ast.expr) else ast.walk(node))
                 if isinstance(c, ast.Call) and dotted(c.func) in summaries]
     pairs = set()
-    for ev, kind in enumerate_paths(withs[0].body, callee_events):
+    for ev, kind in enumerate_paths(crit_body, callee_events):
         for i, a in enumerate(ev):
             for b in ev[i + 1:]:
                 if summaries[a][0] and summaries[b][1]:
@@ -209,7 +218,7 @@ def _rest(ctx, repo, cg):
                 writes.add('blacklist-trie')
             elif role_of.get(nm) == 'registration[all]':
                 writes.add('whitelist-root-conf')
-        if any(isinstance(c, ast.Call) and dotted(c.func) == 'add_beartype_path_hook' for c in walk_shallow(hp)):
+        if any(isinstance(c, ast.Call) and dotted(c.func) == 'add_beartype_path_hook' for f_ in {hp, crit_fn} for c in walk_shallow(f_)):
             writes.add('path-hook')
     restores = set()
     for st in t.finalbody:
